@@ -85,11 +85,11 @@ ImportExisting(x, o, how, FC) ==
   LET into == ImportInto(o, x.kind, {1}) IN
   CASE how = "sync" ->
          \* import into a temporary project, then project.sync(tmp, recursive=True, check_schema=True): merges into the existing
-         \* job, but (as the code, calibrated - sync belongs to C13..C15) refuses with a schema conflict when the state point
-         \* keys of the imported jobs are not the keys of the jobs the project has (here: of the one existing job)
+         \* job, but (as the code, calibrated - sync belongs to C13..C15) refuses with a schema conflict when the detected schema
+         \* (state point key -> typed values) of the imported jobs differs from that of the project (here: of the one existing job)
          LET Js == Selected(x)
              got == {i \in 1..Len(Js) : o.ident[i]}
-             keys(S) == UNION {{e[1] : e \in Flat(Js[i].sp, <<>>)} : i \in S}
+             keys(S) == UNION {Flat(Js[i].sp, <<>>) : i \in S}
          IN IF o.impraise THEN [exit |-> 1, msg |-> "error", n |-> 0, altered |-> FALSE]
             ELSE IF o.nids = 0 THEN [exit |-> 0, msg |-> "nothing", n |-> 0, altered |-> FALSE]
             ELSE IF keys(got) = keys({1}) /\ ~o.stray THEN [exit |-> 0, msg |-> "imported", n |-> o.nids, altered |-> FALSE]
